@@ -148,6 +148,7 @@ def run(ctx, nmax_tie=None, nmax_or=None):
         for pattern in pats:
             for classical in (True, False):
                 tie_case(ctx, n, pattern, classical)
+    boundary_cases(ctx)
     nmax_or = nmax_or or (4 if ctx.quick else 5)
     for n in range(1, nmax_or + 1):
         pats = list(itertools.product([0, 1], repeat=n))
@@ -175,6 +176,85 @@ def run(ctx, nmax_tie=None, nmax_or=None):
         ps = rand_state(ctx, 2 ** n, "haar")
         oracle_case(ctx, n, [0] * n, False, ms, f"pqm:n={n}:superposed-pattern",
                     pat_state={p: c for p, c in enumerate(ps)})
+
+
+BOUNDARIES = {
+    "pqm.py:54 size = len(q_memory)": "n = 1, 2, 3, 4 (all structured patterns), 5 and 6 (classical), 5 (quantum, 11 qubits)",
+    "pqm.py:58/72 if is_classical_pattern": "True / False / left at its default, same patterns and memories on both entry points",
+    "pqm.py:59-61, 73-75 enumerate(q_memory) / [::-1], pattern[k] == 1": "all-zeros, all-ones, a single 1 and a single 0 at every "
+        "position (first and last index of both loops), bits given as int / numpy int / bool",
+    "pqm.py:67 -pi / (2 * size), :70 pi / size": "memory a basis state at Hamming distance 0, 1 (first / last bit), n-1, n from the "
+        "pattern (aux reads 0 with probability 1, cos^2(pi/2n), sin^2(pi/2n), 0) and the uniform superposition; an off-by-one in "
+        "either denominator moves every one of these except d = 0",
+}
+
+
+def structured_patterns(n):
+    pats = [[0] * n, [1] * n]
+    for k in range(n):
+        pats.append([int(j == k) for j in range(n)])
+        pats.append([int(j != k) for j in range(n)])
+    seen, out = set(), []
+    for p in pats:
+        if tuple(p) not in seen:
+            seen.add(tuple(p))
+            out.append(p)
+    return out
+
+
+def boundary_cases(ctx, nmax_q=None):
+    """boundary-value inputs (see BOUNDARIES): structured patterns x memories at the extreme Hamming distances, on the
+    classical and on the quantum entry point, tie and oracle."""
+    nmax_q = nmax_q or 5
+    for n in range(1, 7):
+        full = (1 << n) - 1
+        for pattern in structured_patterns(n):
+            if n >= 5 and sum(pattern) not in (0, n) and pattern[0] == pattern[-1]:
+                continue                      # n = 5, 6: all-zeros, all-ones, single 1 / single 0 at the first and last index
+            pint = sum(b << k for k, b in enumerate(pattern))
+            mems = {"d=0": pint, "d=n": pint ^ full, "d=1:first": pint ^ 1, "d=1:last": pint ^ (1 << (n - 1)),
+                    "d=n-1": pint ^ full ^ 1}
+            for classical in (True, False):
+                if not classical and n > nmax_q:
+                    continue
+                if not classical and n == 5 and sum(pattern) not in (0, n, 1):
+                    continue
+                tie_case(ctx, n, pattern, classical)
+                pstr = "".join(map(str, pattern))
+                for name, m in mems.items():
+                    v = np.zeros(2 ** n, dtype=complex)
+                    v[m] = [1.0, -1.0, 1j, np.exp(0.7j)][(m + n) % 4]
+                    oracle_case(ctx, n, pattern, classical, v, f"pqm:bv:n={n}:p={pstr}:{int(classical)}:{name}")
+                    ctx.count(f"boundary:memory basis state at {name} ({'classical' if classical else 'quantum'})")
+                oracle_case(ctx, n, pattern, classical, np.ones(2 ** n, dtype=complex) / math.sqrt(2 ** n),
+                            f"pqm:bv:n={n}:p={pstr}:{int(classical)}:uniform")
+                # two stored strings: the pattern itself and its complement (distances 0 and n in superposition)
+                v = np.zeros(2 ** n, dtype=complex)
+                v[pint], v[pint ^ full] = 0.6, 0.8j
+                oracle_case(ctx, n, pattern, classical, v, f"pqm:bv:n={n}:p={pstr}:{int(classical)}:d=0+d=n")
+                kind = ("all-zeros" if sum(pattern) == 0 else "all-ones" if sum(pattern) == n else
+                        "single-one" if sum(pattern) == 1 else "single-zero")
+                ctx.count(f"boundary:pattern {kind} n={n}")
+    # total probability of reading 0 at the extreme distances, evaluated directly (d = 0 -> 1, d = n -> 0)
+    from qiskit.quantum_info import Statevector
+    for n in (1, 2, 3, 4):
+        for classical in (True, False):
+            for pattern in ([0] * n, [1] * n, [1] + [0] * (n - 1), [0] * (n - 1) + [1]):
+                pint = sum(b << k for k, b in enumerate(pattern))
+                for m, want in ((pint, 1.0), (pint ^ ((1 << n) - 1), 0.0)):
+                    circ, w = build(n, pattern, classical)
+                    init = np.zeros(2 ** circ.num_qubits, dtype=complex)
+                    init[m if classical else (pint | (m << n))] = 1.0
+                    pr = np.abs(Statevector(init).evolve(circ).data) ** 2
+                    p0 = float(sum(x for i, x in enumerate(pr) if not (i >> w["aux"]) & 1))
+                    key = f"pqm:bv:aux0:n={n}:p={''.join(map(str, pattern))}:{int(classical)}:m={m}"
+                    if abs(p0 - want) > 1e-9:
+                        ctx.fail(key, f"P(aux = 0) = {p0} instead of {want}",
+                                 {"call": "qclib.memory.pqm.initialize", "n": n, "pattern": list(pattern), "classical": classical,
+                                  "memory": [[float(i == m), 0.0] for i in range(2 ** n)], "form": "plain"})
+                    else:
+                        ctx.ok(key, nontrivial=False)
+                    ctx.count("boundary:P(aux=0) exactly 1 / exactly 0")
 
 
 def search(ctx, hints):
